@@ -227,6 +227,10 @@ def extract_function(inference_state, path, module_context, name, pos, until_pos
         remaining_prefix = None
         has_ending_return_stmt = False
     else:
+        if until_pos is None:
+            raise RefactoringError(
+                'Cannot extract statements without the end of a range'
+            )
         has_ending_return_stmt = _is_node_ending_return_stmt(nodes[-1])
         if not has_ending_return_stmt:
             # Find the actually used variables (of the defined ones). If none are
